@@ -167,7 +167,7 @@ def uses_clean(F, body, uses, depth=3):
 
 
 def run(ctx, only_fields=None, rule_prefix="R14"):
-    """only_fields / rule_prefix: lets C03 reuse the reset-before-use analysis for the buffers that carry the dimension sets"""
+    """only_fields (a tuple of names or a predicate (adt, field) -> bool) / rule_prefix: lets C03 reuse the reset-before-use analysis for the buffers that carry the dimension sets"""
     R1, R2, R3, R4 = (rule_prefix + ".1", rule_prefix + ".2", rule_prefix + ".3", rule_prefix + ".4") if rule_prefix == "R14" else (rule_prefix,) * 4
     F = ctx.facts("dbg")
     roots, carr, bufs = carriers(F)
@@ -250,12 +250,14 @@ def run(ctx, only_fields=None, rule_prefix="R14"):
             for j, s in enumerate(b.stmts(i)):
                 if s["k"] == "assign" and s["rv"]["k"] == "ref" and s["rv"].get("mut"):
                     fe = field_elems(s["rv"]["place"], carr)
-                    if fe and fe[-1][1][2] == "state" and fe[-1][0] == len(s["rv"]["place"]["p"]) - 1 and fe[-1][1][3] in roots:
+                    # `&mut self.<field holding the composite state struct>` of a Format implementor (identified by type, not by name)
+                    if fe and fe[-1][0] == len(s["rv"]["place"]["p"]) - 1 and fe[-1][1][3] in roots and \
+                            any(fe[-1][1][4] == c_ or fe[-1][1][4].startswith(c_ + "<") for c_ in carr if c_ not in roots):
                         root_body, u_pos = b, (i, j)
     ctx.check(root_body is not None, R2, "entry-body#whole-state-borrow", "", "cannot find the body that lends the formatter state to the per-call writer")
     # ---- R14.2 per scratch field
     for a, fn, us in scratch:
-        if only_fields is not None and fn not in only_fields:
+        if only_fields is not None and not (only_fields(a, fn) if callable(only_fields) else fn in only_fields):
             continue
         key = "%s.%s#clean-at-first-use" % (a, fn)
         # (a) reset in the entry body dominating the creation of the per-call writer
